@@ -118,6 +118,13 @@ impl View2 {
         }
     }
 
+    /// Re-bases a translation in progress on the current view, keeping the
+    /// model-space point that was grabbed
+    fn rebase_translate(&self, h: &mut TranslateHandle<2>) {
+        h.initial_mat = self.world_to_model();
+        h.initial_center = self.center;
+    }
+
     /// Applies a translation (in world units) to the current camera position
     pub fn translate(
         &mut self,
@@ -250,6 +257,13 @@ impl View3 {
             initial_mat,
             initial_center: self.center,
         }
+    }
+
+    /// Re-bases a translation in progress on the current view, keeping the
+    /// model-space point that was grabbed
+    fn rebase_translate(&self, h: &mut TranslateHandle<3>) {
+        h.initial_mat = self.world_to_model();
+        h.initial_center = self.center;
     }
 
     /// Returns the scaling matrix for this view
@@ -557,7 +571,14 @@ impl Canvas2 {
         pos_screen: Option<Point2<i32>>,
     ) -> bool {
         let pos_world = pos_screen.map(|p| self.image_size.transform_point(p));
-        self.view.zoom((amount / 100.0).exp2(), pos_world)
+        let changed = self.view.zoom((amount / 100.0).exp2(), pos_world);
+        // A drag in progress holds the matrix of the view it was started from;
+        // re-base it on the zoomed view, so that the grabbed point stays
+        // under the cursor when the drag continues.
+        if let Some(h) = &mut self.drag_start {
+            self.view.rebase_translate(h);
+        }
+        changed
     }
 }
 
@@ -690,6 +711,11 @@ impl Canvas3 {
         pos_screen: Option<Point2<i32>>,
     ) -> bool {
         let pos_world = pos_screen.map(|p| self.screen_to_world(p));
-        self.view.zoom((amount / 100.0).exp2(), pos_world)
+        let changed = self.view.zoom((amount / 100.0).exp2(), pos_world);
+        // See `Canvas2::zoom`; a rotation does not depend on the scale
+        if let Some(Drag3::Pan(h)) = &mut self.drag_start {
+            self.view.rebase_translate(h);
+        }
+        changed
     }
 }
